@@ -165,11 +165,12 @@ func genC03Hist(r *Rng, tier string, idx int) []string {
 	}
 	var steps []step
 	var cur []database.Command // the command values the database holds after each step
+	idxN := -1                 // number of commands the engine's index currently describes (-1: none built yet)
 	nsteps := r.Range(2, 6)
 	for s := 0; s < nsteps; s++ {
 		kind := "load"
 		if s > 0 {
-			kind = Pick(r, []string{"update", "update", "grow", "grow", "loadp", "load", "update-same-n"})
+			kind = Pick(r, []string{"update", "update", "grow", "grow", "loadp", "load", "update-same-n", "replace", "replace"})
 		} else {
 			kind = Pick(r, []string{"load", "loadp", "loadp", "grow", "update"})
 		}
@@ -198,6 +199,28 @@ func genC03Hist(r *Rng, tier string, idx int) []string {
 				database.VerifPopulateCache(st.cmds) // a caller passing on loader output
 			}
 			cur = c03Clone(st.cmds)
+		case "replace":
+			// the command list is replaced behind the engine's back by a list of a DIFFERENT length
+			// (longer, with unrelated content, or shorter): the lazy rebuild must start from scratch
+			// (a list exactly as long as the index still is cannot be noticed by the engine's
+			// `N != len` test: the documented boundary of the property's "replaced", see Props/C03.lean)
+			for tries := 0; ; tries++ {
+				if len(cur) > 1 && r.Chance(1, 4) {
+					st.cmds = small(0, len(cur)-1)
+				} else {
+					st.cmds = small(len(cur)+1, len(cur)+4)
+				}
+				if len(st.cmds) != idxN || tries > 20 {
+					break
+				}
+			}
+			if len(st.cmds) == idxN {
+				st.cmds = append(st.cmds, c03GenCmd(r))
+			}
+			if r.Chance(2, 3) {
+				database.VerifPopulateCache(st.cmds)
+			}
+			cur = c03Clone(st.cmds)
 		case "grow":
 			st.cmds = small(0, 3)
 			if r.Chance(2, 3) {
@@ -206,6 +229,10 @@ func genC03Hist(r *Rng, tier string, idx int) []string {
 			cur = append(c03Clone(cur), c03Clone(st.cmds)...)
 		}
 		steps = append(steps, st)
+		switch st.kind {
+		case "load", "loadp", "update":
+			idxN = len(cur) // eager rebuild
+		}
 		// searches after the step (sometimes none: two state changes in a row)
 		for k, m := 0, Pick(r, []int{0, 1, 1, 2, 3}); k < m; k++ {
 			var words []string
@@ -225,6 +252,7 @@ func genC03Hist(r *Rng, tier string, idx int) []string {
 			}
 			o.AllPlatforms = r.Chance(1, 2)
 			steps = append(steps, step{kind: "hsearch", query: q, opts: o, cmds: c03Clone(cur)})
+			idxN = len(cur) // lazy rebuild happened if the size had changed
 		}
 	}
 	// render
@@ -367,6 +395,13 @@ func execC03(ops []string, mon *Mon) []string {
 			pending = nil
 			nsteps++
 			mon.Tag("op-update")
+			out = append(out, st())
+		case "replace":
+			d := ensure().Database
+			d.Commands = c03Clone(pending)
+			pending = nil
+			nsteps++
+			mon.Tag("op-replace")
 			out = append(out, st())
 		case "grow":
 			d := ensure().Database
